@@ -493,6 +493,9 @@ impl Replayer {
                 party.group = None;
                 match party.client.load_group(&gid) {
                     Ok(g) => {
+                        // the loaded object is not the one that joined: a join that was never written is forgotten,
+                        // and with it the queued deletion of its key package
+                        self.w.joined_with.remove(&p);
                         // C06: the loaded group is the group that was written
                         if let Some(wst) = self.w.written.get(&p) {
                             // the queued key-package deletion is a one-shot note of the joining process, not state
@@ -730,8 +733,10 @@ impl Replayer {
             let pre_pending = self.w.parties[p].group.as_ref().map(|g| g.has_pending_commit());
             let plan: Vec<usize> = if pair { vec![k, k + 1] } else { vec![k] };
             self.w.parties[p].ctl.arm(&plan);
+            let mark = self.w.parties[p].ctl.mark();
             let (got, ch) = self.exec(a, p, args, out, want);
             let injected = self.w.parties[p].ctl.disarm();
+            let failed_calls: Vec<String> = self.w.parties[p].ctl.since(mark).into_iter().filter(|c| c.ends_with('!')).collect();
             if injected == 0 {
                 if !pair && k > 0 && self.pairs {
                     // all single positions done: one more round with pairs, then the real attempt
@@ -754,7 +759,16 @@ impl Replayer {
                 // Write is two storage operations (group state, then key-package deletion): when only the second
                 // fails the queued epochs have legitimately been flushed; the stored history is compared with
                 // the model after the retry instead.
-                let d: Vec<_> = b.diff(&g.verif_state()).into_iter().filter(|c| *c != "repo_updates" && !(a == "Write" && *c == "repo_inserts")).collect();
+                let after = g.verif_state();
+                // a Write whose group-state write succeeded (only the key-package deletion failed) has flushed the queues
+                let flushed = a == "Write" && !failed_calls.iter().any(|c| c == "gs.write!");
+                let d: Vec<_> = b.diff(&after).into_iter().filter(|c| *c != "repo_updates" && !(flushed && *c == "repo_inserts")).collect();
+                // queued updates of stored prior epochs may grow (records loaded into the cache) but are never lost
+                let (ub, ua) = (b.pending_update_epochs(), after.pending_update_epochs());
+                if !flushed && !ub.iter().all(|e| ua.contains(e)) {
+                    viol!(self, ["C15"], "fault-lost-updates", "{a} by {p}: storage call {plan:?} ({failed_calls:?}) failed and queued prior-epoch updates {ub:?} shrank to {ua:?}");
+                    return (got, ch);
+                }
                 if !d.is_empty() {
                     viol!(self, ["C15", "C04"], "fault-changed-state", "{a} by {p}: storage call {plan:?} failed and the member changed in {d:?}");
                     return (got, ch);
@@ -1365,6 +1379,14 @@ pub fn custom_proposal(ver: u64) -> mls_rs::group::proposal::CustomProposal {
 pub fn gce_list(ver: u64) -> mls_rs::ExtensionList {
     let mut l = mls_rs::ExtensionList::new();
     l.set(mls_rs::Extension::new(GCE_EXT, (ver as u16).to_be_bytes().to_vec()));
+    // ver = version + 1000 * code: code bit 0 / 1 = the group requires extension type X / Y
+    let code = ver / 1000;
+    if code > 0 {
+        let mut req = vec![];
+        if code % 2 == 1 { req.push(mls_rs::extension::ExtensionType::new(0xF0F2)); }
+        if code >= 2 { req.push(mls_rs::extension::ExtensionType::new(0xF0F3)); }
+        l.set_from(mls_rs::extension::built_in::RequiredCapabilitiesExt::new(req, vec![], vec![])).expect("required capabilities");
+    }
     l
 }
 
@@ -1381,6 +1403,14 @@ pub fn run_behaviour(b: &Value, opts: Opts, deep: bool, faults: bool, tamper: (u
     let mut opts = opts;
     opts.path_required = cfg.get("pathReq").and_then(|x| x.as_bool()).unwrap_or(false);
     opts.encrypt_controls = cfg.get("enc").and_then(|x| x.as_bool()).unwrap_or(false);
+    let list = |k: &str| cfg.get(k).and_then(|x| x.as_array()).map(|a| a.iter().filter_map(|n| n.as_str().map(|s| s.to_string())).collect::<Vec<_>>());
+    // capability lists only matter to behaviours of the "caps" feature (a GCE code > 0 occurs); otherwise everybody supports X and Y
+    let uses_caps = b.get("steps").and_then(|s| s.as_array()).map(|a| a.iter().any(|st| {
+        let ar = &st["args"];
+        ar.get("ver").and_then(|v| v.as_u64()).unwrap_or(0) >= 1000
+            || ar.get("byval").and_then(|x| x.as_array()).map(|x| x.iter().any(|it| it.get("ver").and_then(|v| v.as_u64()).unwrap_or(0) >= 1000)).unwrap_or(false)
+    })).unwrap_or(false);
+    if uses_caps { opts.cap_x = list("capX"); opts.cap_y = list("capY"); }
     let w = match World::new(opts, &names, &creator) {
         Ok(w) => w,
         Err(e) => panic!("world: {e}"),
